@@ -56,7 +56,7 @@ def run(prop, tier, seed, work):
     res = suite.Result(prop, tier, seed)
     rng = random.Random(seed * 3571 + 29)
     quick = tier == "quick"
-    ncopies = 24 if quick else 200
+    ncopies = 24 if quick else 1200
     defs = {}
     for k in range(ncopies):
         defs.update(graph(k))
